@@ -213,7 +213,8 @@ def main():
               "(* the source has exactly the atomic operations, in the order, on the locations, at the places and with the",
               "   operands that the model Locks/SpinModel.v implements *)",
               "Lemma orders_match_model : ops_match src_listing = true.", "Proof. vm_compute. reflexivity. Qed.", "",
-              "(* acquire on the serving load / the exchange, release on both unlock stores *)",
+              "(* exactly what the SC and the stale-read happens-before proofs use: acquire on the serving load and on the exchange,",
+              "   release on both unlock stores (each one is necessary: Example C12_acq_rel_weak_needs_orders) *)",
               "Lemma orders_sufficient : sufficient src_orders = true.", "Proof. vm_compute. reflexivity. Qed.", ""]
     os.makedirs(os.path.dirname(OUT), exist_ok=True)
     txt = "\n".join(lines)
